@@ -564,6 +564,39 @@ func ruleCloseOrder(p *Prog, r *RuleResult) {
 			})
 		}
 	})
+	// the tail of Close (sink Close, closed=1, buffer release) may live in a helper: the call of the helper then
+	// stands for the store in Close, and the sink-Close/closed ordering is checked inside the helper
+	var tailHelpers []*ssa.Function
+	if len(closedStores) == 0 || sinkClose == nil {
+		isClosedStore := func(i ssa.Instruction) bool {
+			c := callOf(i)
+			if c == nil || !isAtomic(c, "StoreInt32", "SwapInt32") || len(c.Args) != 2 {
+				return false
+			}
+			v, ok := constInt(c.Args[1])
+			return ok && v == 1 && fieldVarOfAddr(c.Args[0]) == closedF
+		}
+		memo2 := map[*ssa.Function]int{}
+		eachInstr(wc, func(i ssa.Instruction) {
+			h := helperCallee(i, FnPkg(wc))
+			if h == nil || h == p.MethodOpt("io", "Writer", "processBlock") || h == p.MethodOpt("io", "Writer", "writeHeader") {
+				return
+			}
+			if _, isDefer := i.(*ssa.Defer); isDefer {
+				return
+			}
+			if p.containsDeep(h, isClosedStore, memo2) {
+				closedStores = append(closedStores, i)
+				seen := false
+				for _, t := range tailHelpers {
+					seen = seen || t == h
+				}
+				if !seen {
+					tailHelpers = append(tailHelpers, h)
+				}
+			}
+		})
+	}
 	if pbCall == nil || obsClose == nil || len(closedStores) == 0 {
 		undecided("%s: cannot find processBlock call / bitstream Close / closed store", wname)
 	}
@@ -612,6 +645,19 @@ func ruleCloseOrder(p *Prog, r *RuleResult) {
 	mustFollowOK(obsClose, "bitstream.Close", closedStores, "closed=1", true)
 	if sinkClose != nil {
 		mustFollowOK(sinkClose, "sink.Close", closedStores, "closed=1", false)
+	}
+	for _, h := range tailHelpers {
+		var hSink *ssa.Call
+		eachInstr(h, func(i ssa.Instruction) {
+			if c, ok := i.(*ssa.Call); ok && c.Call.IsInvoke() && c.Call.Method.Name() == "Close" {
+				if recv := namedOf(c.Call.Value.Type()); recv != nil && recv.Obj().Pkg() != nil && recv.Obj().Pkg().Path() == "io" {
+					hSink = c
+				}
+			}
+		})
+		if hSink != nil {
+			mustFollowOK(hSink, "sink.Close", atomicStoreTo(h, closedF), "closed=1", false)
+		}
 	}
 	if len(markers) < 2 {
 		r.fail(wname+"#end-marker", p.Pos(wc.Pos()), "Writer.Close does not write the end marker (zero block length) to the shared stream: readers cannot tell a complete stream from a truncated one")
